@@ -198,6 +198,17 @@ def ev(e, env):
         return sum(ev(x, env) for x in e[1])
     if t == 'pymaxl':
         return max(ev(x, env) for x in e[1])
+    if t == 'pybuiltin':
+        vals = [ev(x, env) for x in e[3]]
+        if e[2] == 'map':
+            vals = [float(v) for v in vals]      # the rendered form is map(float, [...])
+        if e[2] == 'filter':
+            vals = [v for v in vals if v]
+        if e[2] in ('set', 'dictkeys'):
+            vals = list(dict.fromkeys(vals))
+        if not vals and e[1] != 'sum':
+            raise EvalError('empty', '%s of an empty iterable' % e[1])
+        return {'max': max, 'min': min, 'sum': sum}[e[1]](vals)
     raise ValueError('unknown expression %r' % (e,))
 
 
